@@ -107,7 +107,7 @@ class Env:
             base = [f for f in base if f["name"] not in p["names"]]
         elif p["kind"] == "pick":
             base = [f for f in base if f["name"] in p["names"]]
-        return base + own
+        return base + own      # partial / allreq / extend keep every field
 
     # ---------------------------------------------------------------- canonical dumps
     def canon(self, v, depth=0):
@@ -151,6 +151,8 @@ class Env:
         if "ref" in k:
             C = self.classes[k["ref"]]
             return Array[C] if k.get("arr") else C
+        if "refs" in k:      # positional Array of several Structure item types
+            return Array(items=[self.classes[c] for c in k["refs"]])
         raise ValueError(k)
 
     def define(self, c, src):
@@ -160,6 +162,8 @@ class Env:
         for f in src["fields"]:
             if "ref" in f["kind"] and f["kind"]["ref"] not in self.classes:
                 raise NameError("class %d is not defined" % f["kind"]["ref"])   # not a program: skipped whole
+            if "refs" in f["kind"] and any(r not in self.classes for r in f["kind"]["refs"]):
+                raise NameError("a class of %r is not defined" % (f["kind"]["refs"],))
         if p is not None and p["c"] not in self.classes:
             raise NameError("class %d is not defined" % p["c"])
         body = {}
@@ -185,6 +189,12 @@ class Env:
                 cls = P.pick(*p["names"], class_name=src["name"])
             elif p["kind"] == "partial":
                 cls = Partial[P, src["name"]]
+            elif p["kind"] == "allreq":
+                from typedpy import AllFieldsRequired
+                cls = AllFieldsRequired[P, src["name"]]
+            elif p["kind"] == "extend":
+                from typedpy import Extend
+                cls = Extend[P, src["name"]]
             else:
                 raise ValueError(p["kind"])
         self.classes[c] = cls
@@ -213,6 +223,8 @@ class Env:
             v = self.P[k["prim"]][1 + (which % 2)]
         elif "wrap" in k:
             v = self.types[k["wrap"]]()
+        elif "refs" in k:
+            return [self.instance(c, depth + 1) for c in k["refs"]]
         else:
             v = self.instance(k["ref"], depth + 1)
         if k.get("arr"):
@@ -234,6 +246,12 @@ class Env:
             alts += [self.P[k["prim"]][3], self.P[k["prim"]][2], object]
         elif "wrap" in k:
             alts += [U() for _, U in sorted(self.types.items())] + [3]
+        elif "refs" in k:
+            try:
+                insts = [self.instance(c, 1) for c in k["refs"]]
+                alts += [insts[:1], list(reversed(insts)), insts + insts[:1], 3]
+            except Exception:
+                alts += [[], 3]
         else:
             alts += [{"zz": 1}, 3]
         if k.get("arr"):
@@ -274,9 +292,14 @@ class Env:
             if kind == "construct":
                 cls(**({} if op.get("probe") == "empty" else self.valid_kwargs(c)))
             elif kind == "serialize":
-                serialize(self.instance(c))
+                doc = serialize(self.instance(c), camel_case_convert=bool(op.get("camel")))
+                from typedpy.structures import TypedPyDefaults
+                if isinstance(doc, dict) and not TypedPyDefaults.compact_serialization_default:
+                    res["keys"] = sorted(doc)
             elif kind == "deserialize":
-                Deserializer(cls).deserialize(serialize(self.instance(c)))
+                camel = bool(op.get("camel"))
+                Deserializer(cls, camel_case_convert=camel).deserialize(
+                    serialize(self.instance(c), camel_case_convert=camel))
             elif kind == "trusted":
                 Deserializer(cls).deserialize(serialize(self.instance(c)), direct_trusted_mapping=True)
             elif kind == "toSchema":
@@ -378,6 +401,10 @@ class Env:
             r = {}
             r["ser"] = attempt(lambda: self.canon_json(serialize(x)))
             r["compact"] = attempt(lambda: self.canon_json(serialize(x, compact=True)))
+            r["camel"] = attempt(lambda: self.canon_json(serialize(x, camel_case_convert=True)))
+            r["camelRound"] = attempt(lambda: self.canon(Deserializer(cls, camel_case_convert=True).deserialize(
+                serialize(x, camel_case_convert=True))))
+            r["serAgain"] = attempt(lambda: self.canon_json(serialize(x)))
             r["Serializer"] = attempt(lambda: self.canon_json(Serializer(x).serialize()))
             if src.get("fast") or self.is_fast(c):
                 r["method"] = attempt(lambda: self.canon_json(x.serialize()))
@@ -487,8 +514,10 @@ def prim_table():
         pass
     plain = type("PlainRef", (Structure,), {"a": env.P[0][0](False)})
     from typedpy import Array, Field
+    plain2 = type("PlainRef2", (Structure,), {"a": env.P[2][0](False)})
     for name, mk in (("wrap", lambda: Field[U]), ("wrapArr", lambda: Array[U]),
-                     ("ref", lambda: plain), ("refArr", lambda: Array[plain])):
+                     ("ref", lambda: plain), ("refArr", lambda: Array[plain]),
+                     ("refs", lambda: Array(items=[plain, plain2]))):
         row = {"inlines": 0, "defaultable": False}
         try:
             cls = type("T", (Structure, FastSerializable), {"a": mk()})
